@@ -146,7 +146,7 @@ def restText (B : Bytes) (ck : Option Nat) (les : List Bytes) (t : BlockType) (t
 
 /-- armor text in all the shapes the reader is meant to tolerate: leading text, LF or CRLF, a
 separator line of blanks, CR/LF anywhere in the base64 part (`BodyText`), optional checksum line,
-line breaks before the footer line, trailing text -/
+line breaks before the footer line, any trailing text -/
 def armorText (lead nl ws : Bytes) (t : BlockType) (h : Headers) (B : Bytes) (ck : Option Nat)
     (les : List Bytes) (tail : Bytes) : Bytes :=
   headText lead nl ws t h ++ restText B ck les t tail
@@ -157,31 +157,6 @@ def dearmorResult (crcCheck : Bool) (t : BlockType) (h : Headers) (d : Bytes) (c
   match crcStatus crcCheck ck d with
   | .checkedInvalid _ _ => .error .crcMismatch
   | st => .ok { typ := t, headers := h, data := d, checksum := ck, status := st }
-
-theorem restText_noColon (B T : Bytes) (hB : BodyText B T) (ck : Option Nat) (les : List Bytes)
-    (hles : ∀ le ∈ les, IsNl le) (t : BlockType) (tail : Bytes) (htail : ∀ b ∈ tail, b ≠ COLON) :
-    ∀ b ∈ restText B ck les t tail, b ≠ COLON := by
-  intro b hb
-  simp only [restText, footText, List.mem_append] at hb
-  rcases hb with hb | hb | hb | hb | hb | hb | hb
-  · exact hB.noColon b hb
-  · cases ck with
-    | none => simp [crcText] at hb
-    | some c =>
-      obtain ⟨x1, x2, x3, x4, hx, h1, h2, h3, h4⟩ := crcChars c
-      simp only [crcText, hx, List.cons_append, List.nil_append, List.mem_cons] at hb
-      rcases hb with rfl | rfl | rfl | rfl | rfl | hb
-      · decide
-      · exact (bodySym_facts _ (isB64Sym_bodySym _ h1)).2.2.2.1
-      · exact (bodySym_facts _ (isB64Sym_bodySym _ h2)).2.2.2.1
-      · exact (bodySym_facts _ (isB64Sym_bodySym _ h3)).2.2.2.1
-      · exact (bodySym_facts _ (isB64Sym_bodySym _ h4)).2.2.2.1
-      · rcases les_crlf les hles b hb with rfl | rfl <;> decide
-  · revert b; decide
-  · revert b; decide
-  · exact typeName_noColon t b hb
-  · revert b; decide
-  · exact htail b hb
 
 /-- body and footer stages on the text after the header -/
 theorem dearmor_rest (crcCheck : Bool) (t : BlockType) (h : Headers) (d B : Bytes) (ck : Option Nat)
@@ -248,13 +223,10 @@ theorem dearmor_armorText (crcCheck : Bool) (lead nl ws : Bytes) (t : BlockType)
     (ck : Option Nat) (les : List Bytes) (tail : Bytes) (X1 : Bytes) (cs : List Bytes)
     (hlead : ∀ b ∈ lead, b ≠ 45) (hnl : IsNl nl) (hws : ∀ b ∈ ws, b = SP ∨ b = TAB)
     (ht : typeOk t = true) (hh : WFHeaders h = true) (hB : BodyText B (b64enc d))
-    (hck : ∀ c, ck = some c → c < 16777216) (hles : ∀ le ∈ les, IsNl le) (htail : ∀ b ∈ tail, b ≠ COLON)
+    (hck : ∀ c, ck = some c → c < 16777216) (hles : ∀ le ∈ les, IsNl le)
     (hsplit : X1 ++ cs.flatten = restText B ck les t tail) :
     dearmor crcCheck ((headText lead nl ws t h ++ X1) :: cs) = dearmorResult crcCheck t h d ck := by
-  have hXall := restText_noColon B _ hB ck les hles t tail htail
-  have hX1 : ∀ b ∈ X1, b ≠ COLON := by
-    intro b hb; apply hXall; rw [← hsplit]; simp [hb]
-  have hhp := headerParser_headText lead nl ws t h X1 hlead hnl hws ht hh hX1
+  have hhp := headerParser_headText lead nl ws t h X1 hlead hnl hws ht hh
   have hne : (headText lead nl ws t h ++ X1).isEmpty = false := by
     simp [headText, DASH5]
   have hrb : readFromBuf headerParser [] ((headText lead nl ws t h ++ X1) :: cs) =
